@@ -243,6 +243,19 @@ def run_case(case):
             tolrel = max(tolrel, 2e-4)   # cubic inverse: autograd differentiates the closed-form root (with its cancellation) plus two Newton steps
 
         one_sided = [0.0, 0.0]
+        # how far s moves when the inputs move to the neighbouring floating-point numbers: a direction that stretches by e^19 near the
+        # end of a box turns the 1e-16 grid of the inputs into a staircase of 1e-8 steps in s, which difference quotients with
+        # h = 1e-6 cannot look through (a smooth s moves by 1e-16 * slope, which is nothing)
+        ulp_jitter = 0.0
+        if target != "sample":
+            with torch.no_grad():
+                for sgn_ in (1.0, -1.0):
+                    try:
+                        v_ = float(s_of(torch.nextafter(X, torch.full_like(X, sgn_ * float("inf"))), C))
+                    except Exception:
+                        continue
+                    if np.isfinite(v_):
+                        ulp_jitter = max(ulp_jitter, abs(v_ - float(s)))
 
         def fd(apply, h):
             with torch.no_grad():
@@ -287,8 +300,19 @@ def run_case(case):
             ds = [torch.randn(t.shape, generator=g) for t in ts]
             an = sum(float((gr * d).sum()) for gr, d in zip(grs, ds) if gr is not None)
             ap = Dir("inputs" if kind == "inputs" else ("context" if kind == "context" else "param"), ts, ds)
+            jitter = 0.0
             try:
                 f1, f2 = fd(ap, 1e-6), fd(ap, 5e-7)
+                # rounding jitter of s itself: steps of 1e-13 move a smooth s by ~1e-13 * slope; anything beyond that is noise of the
+                # evaluation (inverse directions amplify rounding), which the difference quotients divide by h
+                vals_ = []
+                with torch.no_grad():
+                    for dl in (0.0, 1e-13, 3e-13, -2e-13):
+                        ap(dl - ap.off)
+                        vals_.append(float(s_of(X if ap.kind != "inputs" else ap.val, C if ap.kind != "context" else ap.val)))
+                    ap(-ap.off)
+                jitter = max(abs(v_ - vals_[0]) for v_ in vals_[1:]) if all(np.isfinite(vals_)) else float("inf")
+                jitter = max(jitter, ulp_jitter)
             except Exception as e:
                 if type(e).__name__ == "InputOutsideDomain":
                     res.inconclusive += 1
@@ -309,7 +333,11 @@ def run_case(case):
                 continue
             fr = (4 * f2 - f1) / 3.0                       # Richardson-extrapolated central difference
             # never tighter than what the two step sizes resolve, nor than the rounding noise u*|s|/h of the differences themselves
-            tol = tolrel * (1 + abs(fr)) + 1e-7 + 4 * abs(f1 - f2) + 64 * 2.2e-16 * abs(float(s)) / 5e-7
+            tol = tolrel * (1 + abs(fr)) + 1e-7 + 4 * abs(f1 - f2) + 64 * 2.2e-16 * abs(float(s)) / 5e-7 + 4 * jitter / 5e-7
+            if 4 * jitter / 5e-7 > 10 * tolrel * (1 + abs(fr)):
+                res.inconclusive += 1        # the evaluation is too noisy for difference quotients at these step sizes
+                res.labels.append("noisy_evaluation")
+                continue
             err = abs(an - fr)
             f1 = fr
             res.see_ratio(err, tol)
